@@ -537,6 +537,15 @@ def random_case(rng, i):
         elif r < 0.30 and a != b:
             a, b = b, a                                         # ill-ordered box: the code lets lb win
         lb.append(a); ub.append(b)
+    if U and rng.random() < 0.3:
+        # candidates within rounding distance of a finite bound, on either side (a refined mesh next to a bound): a point outside the box by
+        # 1e-9 is outside (dropped when proj=False, projected when proj=True), never "close enough"
+        for _ in range(rng.choice([1, 2])):
+            row, d = rng.randrange(len(U)), rng.randrange(D)
+            bnd = rng.choice([v for v in (lb[d], ub[d]) if v is not None] or [None])
+            if bnd is not None:
+                U[row] = list(U[row])
+                U[row][d] = bnd + rng.choice([1, -1]) * rng.choice([2.0 ** -30, 2.0 ** -40, 2.0 ** -20]) * max(1.0, abs(bnd))
     m = rng.choice([0, 0, 1, 2, 3, 6])
     log = []
     for _ in range(m):
